@@ -1,7 +1,7 @@
 (* PropC11.v — property theorems for C11 (sync-state index integrity) about StateModel.v.
    Only statements closed by [exact], each followed by Print Assumptions. *)
 From Coq Require Import NArith List Bool.
-From CS Require Import Sx Str PathModel StateModel StateProofs.
+From CS Require Import Sx Str PathModel StateModel StateProofs StatePathProofs.
 Import ListNotations.
 
 (* the empty state satisfies all four clauses *)
@@ -20,15 +20,40 @@ Theorem C11_changeset_exact_refuted : ~ changeset_exact_full.
 Proof. exact changeset_exact_refuted. Qed.
 Print Assumptions C11_changeset_exact_refuted.
 
-(* the setters do not always terminate: a folder placed below its own previous path (DESIGN P-8) *)
+(* OLD code (model variant legacy = true; fixed in /repo by 029c8f6 and ccb41ee): a folder placed below
+   its own previous path, and the changed-flag repair with both sides flagged without ids, recursed
+   without bound *)
+Theorem C11_legacy_update_kids_terminates_refuted : ~ legacy_setters_terminate_full.
+Proof. exact legacy_update_kids_terminates_refuted. Qed.
+Print Assumptions C11_legacy_update_kids_terminates_refuted.
+
+Theorem C11_legacy_changed_setter_terminates_refuted : ~ legacy_setters_terminate_full.
+Proof. exact legacy_changed_setter_terminates_refuted. Qed.
+Print Assumptions C11_legacy_changed_setter_terminates_refuted.
+
+(* the code as it is: both old witnesses run to completion ... *)
+Theorem C11_fixed_witnesses_terminate :
+  (exists s, run_ops E_id init_state (w_kids 1) = Ok s) /\ (exists s, run_ops E_id init_state w_changed = Ok s).
+Proof. exact fixed_witnesses_terminate. Qed.
+Print Assumptions C11_fixed_witnesses_terminate.
+
+(* ... the write of `changed` returns with one unit of fuel, for every state and value ... *)
+Theorem C11_set_changed_total : forall E f fin e sd v s,
+  legacy E = false -> e < length (ents s) -> exists s', exec E (S f) (CChg fin e sd v) s = Ok s'.
+Proof. exact set_changed_total. Qed.
+Print Assumptions C11_set_changed_total.
+
+(* ... and _update_kids skips the renamed folder itself, whatever the recursive call would do ... *)
+Theorem C11_kid_step_skips_self : forall E rec e sd pp p s en,
+  legacy E = false -> get_ent s e = Ok en -> kid_step E rec e sd pp p e s = Ok s.
+Proof. exact kid_step_self. Qed.
+Print Assumptions C11_kid_step_skips_self.
+
+(* ... but termination of the setters is STILL false: a folder moved below one of its own child
+   folders (three events, witness w_kids2) makes the two folders children of each other's move *)
 Theorem C11_update_kids_terminates_refuted : ~ setters_terminate_full.
 Proof. exact update_kids_terminates_refuted. Qed.
 Print Assumptions C11_update_kids_terminates_refuted.
-
-(* ... and the changed-flag repair recursion when both sides are flagged without ids *)
-Theorem C11_changed_setter_terminates_refuted : ~ setters_terminate_full.
-Proof. exact changed_setter_terminates_refuted. Qed.
-Print Assumptions C11_changed_setter_terminates_refuted.
 
 (* ---- what holds (clauses (i)-(iii); IdxJ = idx_found /\ idx_slots, idx_unique follows) ----
    for EVERY state satisfying the invariant (not only reachable ones), every provider
@@ -39,6 +64,14 @@ Print Assumptions C11_changed_setter_terminates_refuted.
 Theorem C11_set_oid_preserves : forall E s e sd v s', IdxJ s -> set_oid E s e sd v = Ok s' -> IdxJ s'.
 Proof. exact set_oid_pres. Qed.
 Print Assumptions C11_set_oid_preserves.
+
+(* ent[side].path = v  (SideState.__setattr__ -> SyncState._change_path) for an entry that is not a
+   folder: re-filing under the new path, removal for None / '', the "ousted entry" branch (impossible
+   under the invariant), priority reset.  The folder case (_update_kids recursion) is NOT covered. *)
+Theorem C11_set_path_nonfolder_preserves : forall E s e sd v s' en,
+  IdxJ s -> get_ent s e = Ok en -> s_otype (gs en sd) <> Dir -> set_path E s e sd v = Ok s' -> IdxJ s'.
+Proof. exact set_path_file_pres. Qed.
+Print Assumptions C11_set_path_nonfolder_preserves.
 
 Theorem C11_set_changed_preserves : forall E s e sd v s', IdxJ s -> set_changed E s e sd v = Ok s' -> IdxJ s'.
 Proof. exact set_changed_pres. Qed.
@@ -63,8 +96,8 @@ Print Assumptions C11_finished_preserves.
 
 (* any sequence of covered operations (assignments of oid / changed / hash / sync_hash / sync_path /
    exists / otype / force_sync / ignored / priority, mark_changed, finished, discard), from any
-   state satisfying the invariant.  NOT covered by this proof: path assignment (_change_path /
-   _update_kids), update_entry, update, split, move-a-side, forget_oid. *)
+   state satisfying the invariant.  NOT covered by this proof: path assignment of folders (_update_kids;
+   non-folder path assignment is C11_set_path_nonfolder_preserves), update_entry, update, split, move-a-side, forget_oid. *)
 Theorem C11_idx_partial : forall E ops s s',
   forallb (fun ot => op_covered (fst ot)) ops = true -> IdxJ s -> run_ops E s ops = Ok s' ->
   idx_found s' /\ idx_slots s' /\ idx_unique s'.
